@@ -215,7 +215,7 @@ def run_bisect_impl(c):
     return res
 
 
-def model_bisect(cases):
+def model_bisect(cases, want_tabs=False):
     """interactive protocol in rounds: the model replies `need b`, the harness answers ESS(b)"""
     tabs = [([], []) for _ in cases]
     res = [None] * len(cases)
@@ -255,6 +255,8 @@ def model_bisect(cases):
         pend = nxt
     for i in pend:
         res[i] = (["bad", "no-termination"], len(tabs[i][0]))
+    if want_tabs:
+        return res, tabs
     return res
 
 
@@ -423,8 +425,23 @@ def _js_bis(im):
 
 # =====================================================================================
 # part B : MCMC_MH
-def gen_prior(rng):
-    fam = rng.choice(["U", "N", "H", "T", "DU", "DG", "DB"])
+FAMS = ["U", "N", "H", "T", "T1L", "T1U", "T0", "DU", "DG", "DB", "DL", "DE"]
+
+
+def gen_prior(rng, fam=None):
+    fam = fam or rng.choice(FAMS)
+    if fam == "T1L":        # one-sided: only `low` given, `up` left at its default +inf
+        mu = rng.uniform(-3, 3); sig = 10 ** rng.uniform(-1, 1)
+        return {"fam": "T1L", "mu": mu, "sig": sig, "low": rng.choice([0.0, mu - sig * rng.uniform(-0.5, 2)])}
+    if fam == "T1U":        # one-sided: only `up` given, `low` left at its default -inf
+        mu = rng.uniform(-3, 3); sig = 10 ** rng.uniform(-1, 1)
+        return {"fam": "T1U", "mu": mu, "sig": sig, "up": rng.choice([0.0, mu + sig * rng.uniform(-0.5, 2)])}
+    if fam == "T0":         # no truncation at all
+        return {"fam": "T0", "mu": rng.uniform(-3, 3), "sig": 10 ** rng.uniform(-1, 1)}
+    if fam == "DL":
+        return {"fam": "DL", "mu": rng.uniform(-1, 1), "sig": rng.uniform(0.2, 1.0), "aslist": rng.random() < 0.3}
+    if fam == "DE":
+        return {"fam": "DE", "loc": rng.uniform(-3, 3)}
     if fam == "U":
         a = rng.uniform(-5, 5); w = 10 ** rng.uniform(-1, 1)
         return {"fam": "U", "a": a, "b": a + w}
@@ -438,9 +455,9 @@ def gen_prior(rng):
         return {"fam": "T", "mu": mu, "sig": sig, "low": lo, "up": up}
     if fam == "DU":
         a = rng.uniform(-5, 5); w = 10 ** rng.uniform(-1, 1)
-        return {"fam": "DU", "a": a, "b": a + w}
+        return {"fam": "DU", "a": a, "b": a + w, "aslist": rng.random() < 0.3}
     if fam == "DG":
-        return {"fam": "DG", "mu": rng.uniform(-3, 3), "sig": 10 ** rng.uniform(-1, 1)}
+        return {"fam": "DG", "mu": rng.uniform(-3, 3), "sig": 10 ** rng.uniform(-1, 1), "aslist": rng.random() < 0.3}
     return {"fam": "DB", "p": rng.uniform(1.2, 4), "q": rng.uniform(1.2, 4)}
 
 
@@ -456,10 +473,21 @@ def build_prior(d):
         return pdfs.HalfNormal(d["sig"])
     if f == "T":
         return pdfs.TruncatedNormal(d["mu"], d["sig"], d["low"], d["up"])
+    if f == "T1L":
+        return pdfs.TruncatedNormal(d["mu"], d["sig"], low=d["low"])
+    if f == "T1U":
+        return pdfs.TruncatedNormal(d["mu"], d["sig"], up=d["up"])
+    if f == "T0":
+        return pdfs.TruncatedNormal(d["mu"], d["sig"])
+    wrap = (lambda t: list(t)) if d.get("aslist") else (lambda t: t)
     if f == "DU":
-        return pba.Distribution("uniform", (d["a"], d["b"]))
+        return pba.Distribution("uniform", wrap((d["a"], d["b"])))
     if f == "DG":
-        return pba.Distribution("gaussian", (d["mu"], d["sig"]))
+        return pba.Distribution("gaussian", wrap((d["mu"], d["sig"])))
+    if f == "DL":
+        return pba.Distribution("lognormal", wrap((d["mu"], d["sig"])))
+    if f == "DE":
+        return pba.Distribution("expon", (d["loc"],))
     return pba.Distribution("beta", (d["p"], d["q"]))
 
 
@@ -467,12 +495,18 @@ def support(d):
     f = d["fam"]
     if f in ("U", "DU"):
         return d["a"], d["b"]
-    if f in ("N", "DG"):
+    if f in ("N", "DG", "T0"):
         return -math.inf, math.inf
-    if f == "H":
+    if f in ("H", "DL"):
         return 0.0, math.inf
     if f == "T":
         return d["low"], d["up"]
+    if f == "T1L":
+        return d["low"], math.inf
+    if f == "T1U":
+        return -math.inf, d["up"]
+    if f == "DE":
+        return d["loc"], math.inf
     return 0.0, 1.0
 
 
@@ -480,6 +514,8 @@ def width(d):
     lo, hi = support(d)
     if math.isfinite(lo) and math.isfinite(hi):
         return hi - lo
+    if d["fam"] == "DL":
+        return 2 * math.exp(d["mu"])
     return d.get("sig", 1.0) * 2
 
 
@@ -492,8 +528,14 @@ def logprior_ref(d, x):
         return -math.inf
     if f in ("U", "DU"):
         return -math.log(d["b"] - d["a"])
-    if f in ("N", "DG"):
+    if f in ("N", "DG", "T0"):
         return float(st.norm.logpdf(x, d["mu"], d["sig"]))
+    if f in ("T1L", "T1U"):
+        return float(st.truncnorm.logpdf(x, (lo - d["mu"]) / d["sig"], (hi - d["mu"]) / d["sig"], loc=d["mu"], scale=d["sig"]))
+    if f == "DL":
+        return float(st.lognorm.logpdf(x, d["sig"], scale=math.exp(d["mu"])))
+    if f == "DE":
+        return float(st.expon.logpdf(x, loc=d["loc"]))
     if f == "H":
         return float(st.halfnorm.logpdf(x, scale=d["sig"]))
     if f == "T":
@@ -511,7 +553,15 @@ def sample_support(rng, d):
         return rng.uniform(lo, hi)
     if d["fam"] == "H":
         return abs(rng.gauss(0, d["sig"]))
-    return rng.gauss(d["mu"], d["sig"])
+    if d["fam"] == "DL":
+        return math.exp(rng.gauss(d["mu"], d["sig"]))
+    if d["fam"] == "DE":
+        return d["loc"] + rng.expovariate(1.0)
+    for _ in range(200):
+        x = rng.gauss(d["mu"], d["sig"])
+        if lo <= x <= hi:
+            return x
+    return (lo if math.isfinite(lo) else hi) + (d["sig"] * 0.01 if math.isfinite(lo) else -d["sig"] * 0.01)
 
 
 def make_ll(d):
@@ -634,15 +684,27 @@ def gen_mh_cases(ctx):
         dim = rng.choice([1, 2, 2, 3])
         pri = [gen_prior(rng) for _ in range(dim)]
         lld = gen_ll_desc(rng, pri)
+        if k < 8:           # witnesses always present: every one-sided family, proposals straddling the bound
+            pri[0] = gen_prior(rng, ["T1L", "T1U", "H", "DL", "DE", "T1L", "T1U", "T"][k])
+            if k == 5:
+                pri[0] = {"fam": "T1L", "mu": 0.3, "sig": 1.0, "low": 0.0}
+            lld = gen_ll_desc(rng, pri)
         cur = [sample_support(rng, p) for p in pri]
+        if k < 8 or rng.random() < 0.3:      # start next to a finite bound so that proposals leave the support
+            for i, p in enumerate(pri):
+                lo, hi = support(p)
+                if math.isfinite(lo) and (not math.isfinite(hi) or rng.random() < 0.5):
+                    cur[i] = lo + 0.02 * width(p) * rng.random()
+                elif math.isfinite(hi):
+                    cur[i] = hi - 0.02 * width(p) * rng.random()
         A = [[rng.gauss(0, 1) for _ in range(dim)] for _ in range(dim)]
-        sc = [width(p) * rng.choice([0.02, 0.2, 0.2, 1.0, 4.0]) for p in pri]
+        sc = [width(p) * (rng.choice([0.02, 0.2, 0.2, 1.0, 4.0]) if k >= 8 else 1.0) for p in pri]
         Em = (np.diag(sc) @ (np.array(A) @ np.array(A).T / dim + 0.05 * np.eye(dim)) @ np.diag(sc)).tolist()
         beta = rng.choice([1.0, 1.0, rng.random(), rng.random(), 10 ** rng.uniform(-8, -1), 0.0])
         cases.append({"pri": pri, "ll": lld, "cur": cur, "Em": Em, "beta": beta,
-                      "n": rng.choice([0, 1, 2, 3, 5, 5, 8]), "acc0": rng.choice([0, 0, 3, 17]),
+                      "n": rng.choice([0, 1, 2, 3, 5, 5, 8]) if k >= 8 else 6, "acc0": rng.choice([0, 0, 3, 17]),
                       "seed": rng.randrange(2 ** 31), "pn": rng.randrange(100),
-                      "stale": rng.random() < 0.05})
+                      "stale": rng.random() < 0.05 and k >= 8})
     return cases
 
 
@@ -851,21 +913,37 @@ class StageLimit(Exception):
 def gen_run_cases(ctx):
     rng = ctx.rng
     cases = []
-    for k in range(ctx.scale(3, 12)):
-        dim = rng.choice([1, 2, 2])
-        if k == 0:
+    for k in range(ctx.scale(5, 14)):
+        dim = rng.choice([1, 2, 2, 3])
+        N = rng.choice([51, 60, 80, 100, 120, 160])
+        steps = rng.choice([1, 2, 3])
+        sharp = None
+        if k == 0:          # N=60, informative likelihood: the 50 floor of the ESS target becomes active
             pri = [{"fam": "U", "a": 0.8, "b": 2.2}, {"fam": "DU", "a": 0.4, "b": 1.2}]
+            N, steps, sharp = 60, 2, 0.05
+        elif k == 1:
+            pri = [gen_prior(rng) for _ in range(dim)]
+            N = 60
         elif k == 2:
             pri = [gen_prior(rng)]          # single-parameter calibration (np.cov returns a 0-d array)
+            N = 60
+        elif k == 3:        # N=100 with one-sided priors
+            pri = [gen_prior(rng, "T1L"), gen_prior(rng, rng.choice(["DL", "H", "T1U", "DE"]))]
+            N, steps, sharp = 100, 3, 0.1
+        elif k == 4:        # N=160, 5 parameters, sharp likelihood: many stages, 0.95*ESS_prev falls far below N/2
+            pri = [gen_prior(rng, f) for f in ("U", "H", "N", "U", "N")]
+            N, steps, sharp = 160, 2, 0.012
         else:
             pri = [gen_prior(rng) for _ in range(dim)]
         lld = gen_ll_desc(rng, pri)
         lld["s"] = rng.choice([1.0, 10.0, 100.0])
         lld["w"] = [width(p) * 10 ** rng.uniform(-1.2, -0.3) for p in pri]
+        if sharp is not None:
+            lld["kind"], lld["s"] = "quad", 1.0
+            lld["w"] = [width(p) * sharp for p in pri]
         if k == 1:
             lld["kind"] = "hole"; lld["t"] = lld["c"][0] + 0.3 * lld["w"][0]
-        cases.append({"pri": pri, "ll": lld, "N": 60 if k < 3 else rng.choice([51, 60, 80, 120]),
-                      "steps": rng.choice([1, 2, 3]), "seed": rng.randrange(2 ** 31)})
+        cases.append({"pri": pri, "ll": lld, "N": N, "steps": steps, "seed": rng.randrange(2 ** 31)})
     return cases
 
 
@@ -935,6 +1013,21 @@ def oracle_run(c, o):
         prev = betas[k]
     if betas[-2] != 1 or betas[-1] != 1:
         out.append((dict(base, symptom="last-beta"), f"last exponents {betas[-2:]!r} are not exactly 1"))
+    # the recorded (beta, ESS) chain, stage by stage, against the documented target max(0.95*ESS_prev, 50)
+    prev_ess, bprev = N, 0.0
+    for k, s in enumerate(trace[:-1]):
+        Lm = np.asarray(s.Lm, dtype=float)
+        if Lm.shape != (N,) or s.ESS is None:
+            break
+        cc = {"old": bprev, "ll": Lm.tolist(), "prev": prev_ess, "kind": "run-stage", "lev": 0.0}
+        im = ("ok", float(s.beta), 0.0, np.asarray(s.Wm_n, dtype=float), s.ESS)
+        bad = oracle_bisect(None, cc, im)
+        for feat, text in bad[:2]:
+            out.append((dict(feat, call="TMCMC.run stage", N=N, dim=dim),
+                        f"stage {k} (N={N}, previous ESS {prev_ess}, previous beta {bprev!r}): " + text))
+        if bad:
+            break
+        prev_ess, bprev = s.ESS, float(s.beta)
     bprev = 0.0
     for k, s in enumerate(trace):
         last = k == len(trace) - 1
@@ -1036,12 +1129,30 @@ def part_run(ctx):
         if len(calls) != nst * N:
             ctx.tie_bad("run-stage", cj, {"calls": len(calls)}, "call count")
             continue
+        # the per-stage (beta, ESS) chain re-derived by the model's bisection (harness answers ESS(beta) from the stage's Lm)
+        chain, pe, bp = [], N, 0.0
+        for k in range(nst):
+            chain.append({"old": bp, "prev": pe, "ll": [float(v) for v in np.asarray(trace[k].Lm, dtype=float)]})
+            pe, bp = trace[k].ESS, float(trace[k].beta)
+        chain_res, chain_tabs = model_bisect(chain, want_tabs=True)
+        for k, (cc, (t, nq)) in enumerate(zip(chain, chain_res)):
+            ctx.count(("run-bisect", c["seed"], k), True, "run-bisect")
+            st = trace[k]
+            # the model tries exact rationals, the code their binary64 roundings: next to an int() step of the ESS a
+            # decision may differ, which moves beta by at most the bisection tolerance and the ESS by one
+            if t[0] == "ok" and abs(float(F(t[1])) - float(st.beta)) <= 3e-8 and abs(int(F(t[2])) - int(st.ESS)) <= 1 \
+                    and ((t[3] == "1") == (float(st.beta) == 1)):
+                ctx.tie_ok()
+            else:
+                ctx.tie_bad("run-bisect", dict(cj, stage=k, old=cc["old"], prev=cc["prev"]),
+                            {"beta": float(st.beta), "ESS": int(st.ESS)}, " ".join(t)[:160])
         # initial log-priors: the first N*dim recorded prior evaluations
         init = parse_events([e for e in o["log"][:N * dim]], dim, N)
         post = None
         if init is not None:
             post = [s[1] for s in init]
         reqs, metas = [], []
+        post0, stage_parts = (list(post) if post is not None else None), []
         bprev = 0.0
         for k in range(nst):
             st = trace[k]
@@ -1079,6 +1190,7 @@ def part_run(ctx):
             parts = " ".join(f"{ql(Sm[i].tolist())} {ev(Lm[i])} {ev(post[i])}" for i in range(N))
             reqs.append(f"stage {q(bprev)} {q(beta)} {N} {parts} [{','.join(map(str, ids))}] {N} " + " ".join(moves))
             metas.append((k, beta))
+            stage_parts.append((ids, moves))
             post = [float(calls[k * N + j]["ret"][2]) for j in range(N)]
             bprev = beta
         reps = core.model_batch("C19", reqs)
@@ -1109,6 +1221,43 @@ def part_run(ctx):
                 ctx.tie_ok()
             else:
                 ctx.tie_bad("run-stage", dict(cj, stage=k), {"beta": beta}, why)
+        # the whole loop in one request: exponents by the model's bisection (ESS tables of the chain replay, keys
+        # matched up to 1e-12), populations by the model's stage step; compared with the recorded trace
+        if post0 is not None and len(stage_parts) == nst:
+            Sm0 = np.asarray(trace[0].Sm, dtype=float); Lm0 = np.asarray(trace[0].Lm, dtype=float)
+            parts = " ".join(f"{ql(Sm0[i].tolist())} {ev(Lm0[i])} {ev(post0[i])}" for i in range(N))
+            envs = " ".join(f"[{','.join(chain_tabs[k][0])}] [{','.join(chain_tabs[k][1])}] [{','.join(map(str, stage_parts[k][0]))}] {N} "
+                            + " ".join(stage_parts[k][1]) for k in range(nst))
+            rep = core.model_batch("C19", [f"run 1/1000000000000 0 {N} {N} {parts} {nst} {envs}"])[0]
+            ctx.count(("run-loop", c["seed"]), True, "run-loop")
+            t = rep.split()
+            why = None
+            if t[0] != "ok" or t[1] != "1":
+                why = "model: " + rep[:120]
+            else:
+                mb = unql(t[2]); lens = t[3].strip("[]").split(",")
+                tb = [float(s.beta) for s in trace]
+                if len(mb) != len(tb) or any(abs(float(a) - b) > 3e-8 for a, b in zip(mb, tb)) or mb[-1] != 1 or mb[-2] != 1:
+                    why = f"exponent chain differs: model {[float(a) for a in mb]} trace {tb}"
+                elif any(int(x) != N for x in lens) or int(t[4]) != N:
+                    why = "population sizes differ"
+                else:
+                    exact_chain = all(close(b, a, 64) for a, b in zip(mb, tb))
+                    fin_S = np.asarray(trace[-1].Sm, dtype=float); fin_L = np.asarray(trace[-1].Lm, dtype=float)
+                    for j in range(N):
+                        mx, ml, mp = t[5 + 3 * j: 8 + 3 * j]
+                        r = calls[(nst - 1) * N + j]["ret"]
+                        if unql(mx) != [F(float(v)) for v in fin_S[j]] or not ev_close(fin_L[j], ml, 1):
+                            if exact_chain:
+                                why = f"final particle {j} differs"
+                            break
+                        if exact_chain and not post_close(r[2], mp, 64 * _mag(r[2], 1.0, r[1])):
+                            why = f"final particle {j}: tempered log-posterior {float(r[2])!r} model {mp}"
+                            break
+            if why is None:
+                ctx.tie_ok()
+            else:
+                ctx.tie_bad("run-loop", cj, {"betas": [float(s.beta) for s in trace]}, why)
         if len(ctx.samples) < 6:
             ctx.sample({"part": "run", "N": N, "priors": c["pri"], "ll": c["ll"]["kind"], "stages": nst,
                         "betas": [float(s.beta) for s in trace]})
@@ -1118,9 +1267,9 @@ def part_run(ctx):
 def run(ctx: core.Check):
     ctx.rule = ("bisect: log-likelihood vectors of 9 shapes (normal, ties, few/many -inf, flat, one dominant, two-level, heavy tail) "
                 "x scale 1e-3..1e4 x shifts, N in 51..400, old beta in {0, dyadic, random, 1-1e-k}, previous ESS in {N, <N, 0.95*prev integer, "
-                "floor-50 active, non-integer, >N}; non-trivial unless flat/all -inf/old>=2. mh: 1-3 parameters from 7 prior families, "
+                "floor-50 active, non-integer, >N}; non-trivial unless flat/all -inf/old>=2. mh: 1-3 parameters, "
                 "quadratic / zero-likelihood-region / flat log-likelihoods, random SPD proposal covariances at 4 scales, 0-8 steps, "
-                "beta in {1, random, tiny, 0}; non-trivial when at least one step. run: 60-120 particle calibrations, every stage tied. "
+                "beta in {1, random, tiny, 0}, starts next to a finite bound of the support; 12 prior families incl. one-sided / untruncated TruncatedNormal and library lognormal/expon; non-trivial when at least one step. run: calibrations with N in {60,100,160,..}, 1-5 parameters, every stage tied and the (beta, ESS) chain re-derived. "
                 "distinctness on the canonical input description.")
     ctx.assumptions = ["exp/log are not modelled: exp values and log-uniforms are computed by numpy and supplied to the model; "
                        "ESS(beta) is an oracle answered by the harness with the implementation's own three numpy lines",
